@@ -149,6 +149,17 @@ def coll_header(rng, ptype=None, bd=None, src=None):
 
 
 def coll_cmds(rng, h, n, arrays=None, tries=True, fail=False):
+    cmds = _coll_cmds(rng, h, n, arrays, tries, fail)
+    # memory_pool_collection::reserve(node_size, capacity) here and there (capacity below next_capacity())
+    out = []
+    for c in cmds:
+        out.append(c)
+        if rng.random() < 0.03:
+            out.append("rsv %d %d" % (rng.randint(1, h["ns"]), rng.choice([16, 64, 100, 256, 300])))
+    return out
+
+
+def _coll_cmds(rng, h, n, arrays=None, tries=True, fail=False):
     maxns = h["ns"]
     if arrays is None:
         arrays = h["type"] != "small"
